@@ -156,35 +156,37 @@ def pointMicro (i : Image) : Out Nat := do
     if (← i.binaryAt (i.maxX - 1) (i.minY + 1 + k)) then sum2 := sum2 + 1
   if sum1 > sum2 then pure (sum2 * 16 + sum1) else pure (sum1 * 16 + sum2)
 
-/-- Go: `longRunLengthCount` (as written: a run ending at the border is not scored, and the
-length restarts at 0 after a colour change; the second loop scans `BinaryAt(x, y)` with the roles
-of the bounds swapped) -/
+/-- Go: `longRunLengthCount` (rule N1): runs of five or more in every row and column,
+a run ending at the border included -/
 def longRunLengthCount (i : Image) : Out Nat := do
+  let score (length : Nat) : Nat := if length ≥ 5 then length - 5 + 3 else 0
   let mut cnt : Nat := 0
   for yy in [0:(i.maxY - i.minY).toNat] do
     let y := i.minY + yy
     let mut length : Nat := 0
-    let mut c0 ← i.binaryAt i.minX y
+    let mut c0 := false
     for xx in [0:(i.maxX - i.minX).toNat] do
       let x := i.minX + xx
       let c ← i.binaryAt x y
-      if c == c0 then length := length + 1
+      if length > 0 && c == c0 then length := length + 1
       else
-        if length ≥ 5 then cnt := cnt + (length - 5 + 3)
+        cnt := cnt + score length
         c0 := c
-        length := 0
-  for xx in [0:(i.maxY - i.minY).toNat] do
-    let x := i.minY + xx
+        length := 1
+    cnt := cnt + score length
+  for xx in [0:(i.maxX - i.minX).toNat] do
+    let x := i.minX + xx
     let mut length : Nat := 0
-    let mut c0 ← i.binaryAt x i.minX
-    for yy in [0:(i.maxX - i.minX).toNat] do
-      let y := i.minX + yy
+    let mut c0 := false
+    for yy in [0:(i.maxY - i.minY).toNat] do
+      let y := i.minY + yy
       let c ← i.binaryAt x y
-      if c == c0 then length := length + 1
+      if length > 0 && c == c0 then length := length + 1
       else
-        if length ≥ 5 then cnt := cnt + (length - 5 + 3)
+        cnt := cnt + score length
         c0 := c
-        length := 0
+        length := 1
+    cnt := cnt + score length
   pure cnt
 
 /-- Go: `blockCount` (coordinates passed as `BinaryAt(y, x)`) -/
@@ -201,26 +203,34 @@ def blockCount (i : Image) : Out Nat := do
       if c1 == c2 && c1 == c3 && c1 == c4 then cnt := cnt + 1
   pure (cnt * 3)
 
-/-- Go: `finderPattern` (as written, including the repeated `x-1, x-2, x-3` operands) -/
+/-- Go: `finderPattern` (rule N3): the pattern 1011101 in a row or column, preceded or followed by
+four light modules (modules outside the image are light), scores 40 per occurrence -/
 def finderPattern (i : Image) : Out Nat := do
+  let light4 (x y dx dy : Int) : Out Bool := do
+    let mut ok := true
+    for k in [0:4] do
+      if (← i.binaryAt (x + (k : Int) * dx) (y + (k : Int) * dy)) then ok := false
+    pure ok
+  let pat (x y dx dy : Int) : Out Bool := do
+    let c0 ← i.binaryAt x y
+    let c1 ← i.binaryAt (x + dx) (y + dy)
+    let c2 ← i.binaryAt (x + 2 * dx) (y + 2 * dy)
+    let c3 ← i.binaryAt (x + 3 * dx) (y + 3 * dy)
+    let c4 ← i.binaryAt (x + 4 * dx) (y + 4 * dy)
+    let c5 ← i.binaryAt (x + 5 * dx) (y + 5 * dy)
+    let c6 ← i.binaryAt (x + 6 * dx) (y + 6 * dy)
+    pure (c0 && !c1 && c2 && c3 && c4 && !c5 && c6)
   let mut cnt : Nat := 0
   for yy in [0:(i.maxY - i.minY).toNat] do
     let y := i.minY + yy
     for xx in [0:(i.maxX - i.minX).toNat] do
       let x := i.minX + xx
-      let at' := fun (a b : Int) => i.binaryAt a b
-      let c1 ← at' x (y - 3); let c2 ← at' x (y - 2); let c3 ← at' x (y - 1); let c4 ← at' x y
-      let c5 ← at' x (y + 1); let c6 ← at' x (y + 2); let c7 ← at' x (y + 3)
-      if c1 && !c2 && c3 && c4 && c5 && !c6 && c7 then
-        let a := !(← at' x (y - 4)) && !(← at' x (y - 5)) && !(← at' x (y - 6)) && !(← at' x (y - 7))
-        let b := !(← at' x (y + 4)) && !(← at' x (y + 5)) && !(← at' x (y + 6)) && !(← at' x (y + 7))
-        if a || b then cnt := cnt + 1
-      let d1 ← at' (x - 3) y; let d2 ← at' (x - 2) y; let d3 ← at' (x - 1) y; let d4 ← at' x y
-      let d5 ← at' (x - 1) y; let d6 ← at' (x - 2) y; let d7 ← at' (x - 3) y
-      if d1 && !d2 && d3 && d4 && d5 && !d6 && d7 then
-        let a := !(← at' (x - 4) y) && !(← at' (x - 5) y) && !(← at' (x - 6) y) && !(← at' (x - 7) (y - 7))
-        let b := !(← at' (x + 4) y) && !(← at' (x - 5) y) && !(← at' (x + 6) y) && !(← at' x (y + 7))
-        if a || b then cnt := cnt + 1
+      if x + 6 < i.maxX then
+        if (← pat x y 1 0) then
+          if (← light4 (x - 4) y 1 0) || (← light4 (x + 7) y 1 0) then cnt := cnt + 1
+      if y + 6 < i.maxY then
+        if (← pat x y 0 1) then
+          if (← light4 x (y - 4) 0 1) || (← light4 x (y + 7) 0 1) then cnt := cnt + 1
   pure (cnt * 40)
 
 /-- Go: `pointOnesCount`, in IEEE double arithmetic as the Go code -/
